@@ -69,8 +69,18 @@ func newAEAD(key []byte, nonceSize, tagSize int) (cipher.AEAD, error) {
 	case nonceSize == 12:
 		return cipher.NewGCMWithTagSize(blk, tagSize)
 	}
-	return nil, fmt.Errorf("combination (nonce %d, tag %d) is not reachable through crypto/cipher", nonceSize, tagSize)
+	// both non-standard at once: not reachable through crypto/cipher's constructors, but through the method those
+	// constructors call on the Block (NewGCM(nonceSize, tagSize)), which callers can reach by interface assertion
+	if g, ok := blk.(interface {
+		NewGCM(nonceSize, tagSize int) (cipher.AEAD, error)
+	}); ok {
+		return g.NewGCM(nonceSize, tagSize)
+	}
+	return nil, errComboUnreachable
 }
+
+// errComboUnreachable: a (nonce size, tag size) pair that no constructor of this path offers - nothing to judge.
+var errComboUnreachable = fmt.Errorf("combination of non-standard nonce and tag size is not reachable on this path")
 
 func newAEADFromBlock(blk cipher.Block, nonceSize, tagSize int) (cipher.AEAD, error) {
 	switch {
@@ -180,6 +190,13 @@ func gcmCases(rng *hk.RNG, scale int) []*gcmCase {
 	for tag := 12; tag <= 16; tag++ {
 		for _, pl := range lenClasses {
 			cs = append(cs, mk("tag-sweep", 12, rng.Pick(lenClasses[:12]), pl, tag))
+		}
+	}
+	// BOTH non-standard at once (nonce size x tag size): the statement quantifies over the product; reached through
+	// the Block's own NewGCM(nonceSize, tagSize) on the accelerated path (skipped where no path offers it)
+	for _, nl := range []int{1, 8, 13, 16, 24, 60, 130} {
+		for tag := 12; tag <= 15; tag++ {
+			cs = append(cs, mk("nonce-x-tag", nl, rng.Pick(lenClasses[:12]), rng.Pick(lenClasses[:24]), tag))
 		}
 	}
 	// class cross product (sampled in quick, full in thorough)
